@@ -19,7 +19,7 @@ namespace XalanModel.C13
 /-! ### copy-of -/
 
 inductive Event where
-  | startElement (name : Option QName)
+  | startElement (name : Option Tag)
   | endElement
   | characters (data : String)
   | comment (data : String)
@@ -34,7 +34,7 @@ def copyEvents (sp : StripFn) : Node → List Event
   | .text _ d => [.characters d]
   | .comment _ d => [.comment d]
   | .pi _ t d => [.pi t d]
-def copyKidsEvents (sp : StripFn) (pn : Option QName) : List Node → List Event
+def copyKidsEvents (sp : StripFn) (pn : Option Tag) : List Node → List Event
   | [] => []
   | k :: ks =>       -- a text child goes through cloneToResultTree(text, overrideStrip = false)
     (if k.stripped sp pn then [] else copyEvents sp k) ++ copyKidsEvents sp pn ks
@@ -48,14 +48,30 @@ def copyOf (sp : StripFn) : Option Value → Option (List Event)
 
 /-! ### one-step patterns -/
 
-def Loc.isDocument (l : Loc) : Bool :=
-  match l.focus with
-  | .elem _ none _ => true
-  | _ => false
+/-- the node is the document node: the one node without a parent (`getNodeType() == DOCUMENT_NODE`; in the tree
+of a parsed source it is the location with no frame above it) -/
+def Loc.isDocument (l : Loc) : Bool := l.path.isEmpty
 
 /-- `getMatchScore != eMatchScoreNone` for a one-step pattern (`a`, `text()`, `node()` …): the strip-aware node
 test; the document node matches no such pattern -/
 def patMatches (sp : StripFn) (t : Test) (l : Loc) : Bool := !l.isDocument && t.accepts sp l
+
+/-! ### xsl:for-each / xsl:apply-templates select=…, xsl:sort -/
+
+def ctxList (n : Nat) : List Loc → Nat → List Ctx
+  | [], _ => []
+  | x :: xs, i => ⟨x, i, n⟩ :: ctxList n xs (i + 1)
+
+/-- the contexts (node, `position()`, `last()`) in which `xsl:for-each select="e"` instantiates its body and
+`xsl:apply-templates select="e"` the chosen templates (before any `xsl:sort`) -/
+def contextsOf : Option Value → Option (List Ctx)
+  | some (.ns l) => some (ctxList l.length l 1)
+  | _ => none
+
+/-- the `xsl:sort select="key"` keys (data-type text) of the selected nodes, in selection order; a stable sort
+by these keys is what `NodeSorter` applies -/
+def sortKeys (sp : StripFn) (sel key : Expr) (c : Ctx) : Option (List (Option String)) :=
+  (contextsOf (sel.eval sp c)).map fun cs => cs.map fun cx => (key.eval sp cx).map (Value.toStr sp)
 
 /-! ### keys -/
 
@@ -149,5 +165,53 @@ def numberAny (sp : StripFn) (countT : Test) (fromT : Option Test) (fuel : Nat) 
   match findTargetAny sp countT fromT fuel l with
   | none => 0
   | some t => chainLength sp countT fromT fuel t
+
+/-! ### xsl:number level="any" without `from`: the Recommendation's reading -/
+
+/-- every node before the one at `⟨focus, path⟩` in document order — preceding nodes and ancestors — nearest
+first (reverse document order), up to but excluding the document node -/
+def beforeAux : Node → List Frame → List Loc
+  | _, [] => []
+  | focus, f :: p =>
+    (Loc.precedingSiblings ⟨focus, f :: p⟩).flatMap (fun s => s.descOrSelf.reverse)
+      ++ (if (Loc.mk (f.parentNode focus) p).isDocument then []
+          else ⟨f.parentNode focus, p⟩ :: beforeAux (f.parentNode focus) p)
+
+def Loc.before (l : Loc) : List Loc := beforeAux l.focus l.path
+
+/-- XSLT §7.7 level="any": "the number of nodes that match the count pattern and … are the current node or
+before it in document order" (no `from`).  This is what the backwards walk `findTargetAny`/`chainLength`
+computes when `from` is absent: it visits `l :: l.before` in this order and counts the matching nodes. -/
+def numberAnySpec (sp : StripFn) (countT : Test) (l : Loc) : Nat :=
+  ((l :: l.before).filter (patMatches sp countT)).length
+
+/-! ### xsl:number level="single" / level="multiple" -/
+
+/-- `ElemNumber::getMatchingAncestors(node, stopAtFirstFound)` over the node and its ancestors (nearest first):
+a node matching `from` ends the walk — except with `stopAtFirstFound` (level single), where the walk goes on
+(the source comment calls that a probable bug; mirrored as written); a node matching `count` is collected, and
+with `stopAtFirstFound` the walk ends there. -/
+def matchingAncestors (sp : StripFn) (countT : Test) (fromT : Option Test) (single : Bool) : List Loc → List Loc
+  | [] => []
+  | n :: rest =>
+    if fromMatches sp fromT n && !single then []
+    else if patMatches sp countT n then
+      (if single then [n] else n :: matchingAncestors sp countT fromT single rest)
+    else matchingAncestors sp countT fromT single rest
+
+/-- `ElemNumber::getPreviousNode`, single/multiple branch, iterated by `CountersTable::countNode`: from the
+target walk `getPreviousSibling()`; every sibling matching `count` is one more member of the chain.  The
+argument is the list of preceding siblings, nearest first. -/
+def siblingChain (sp : StripFn) (countT : Test) : List Loc → Nat
+  | [] => 0
+  | x :: xs => if patMatches sp countT x then 1 + siblingChain sp countT xs else siblingChain sp countT xs
+
+/-- the number of one collected ancestor: itself plus the matching preceding siblings -/
+def numberOfTarget (sp : StripFn) (countT : Test) (t : Loc) : Nat :=
+  1 + siblingChain sp countT t.precedingSiblings
+
+/-- the number list `getCountString` formats (outermost first) for level single (`single = true`) or multiple -/
+def numberList (sp : StripFn) (countT : Test) (fromT : Option Test) (single : Bool) (l : Loc) : List Nat :=
+  ((matchingAncestors sp countT fromT single (l :: l.ancestors)).reverse).map (numberOfTarget sp countT)
 
 end XalanModel.C13
